@@ -70,6 +70,8 @@ def cycles_of(case):
 
     def dfs(start, u, path, seen):
         for i, inp in enumerate(comps[u]["inputs"]):
+            if sc.is_static_src(comps, inp["src"]):
+                continue  # a static output is never a dependency
             v = inp["src"][0]
             if v == start:
                 out.append(path + [(u, i)])
